@@ -8,6 +8,7 @@ from hypothesis import strategies as st
 
 import cssutils  # noqa: F401  (registers the codec)
 from cssutils import codec as C
+from vlib.reported import reported_sub
 from vlib.runner import Sub, Violation, lib
 
 PROPERTY = 'C07'
@@ -554,3 +555,6 @@ SUBS = [
     Sub('chunk', check_chunk, strategy=rt_case(), quick=30000, thorough=1200000, shards_quick=8),
     Sub('force', check_force, strategy=force_case(), quick=20000, thorough=600000, shards_quick=8),
 ]
+
+
+SUBS.append(reported_sub('C07'))
